@@ -35,11 +35,11 @@ def G(tag, L, sknb, skna, R, gmode, depth, num, props, gridhalf=0, sw=False):
 ALL_INV = ["InvC08", "InvDecide", "InvNoReset", "InvNodeTrust", "InvSuccessor"]
 MC = {
     "C08": dict(
-        quick=[mc_cfg("MC_Roots_table_q.cfg", 4, -1, 1, 3, 1, 0, 0, "table", ["InvC08", "InvDecide"]),
+        quick=[mc_cfg("MC_Roots_table_q.cfg", 4, -1, 1, 3, 1, 0, 0, "table", ["InvC08", "InvDecide", "InvFailed"]),
                mc_cfg("MC_Roots_hist_q.cfg", 8, -1, 1, 0, 4, 0, 40, "history", ["InvC08", "InvDecide"])],
-        thorough=[mc_cfg("MC_Roots_table_t1.cfg", 4, -1, 1, 5, 1, 0, 0, "table", ["InvC08", "InvDecide"]),
-                  mc_cfg("MC_Roots_table_t2.cfg", 6, 0, 0, 4, 1, 0, 0, "table", ["InvC08", "InvDecide"]),
-                  mc_cfg("MC_Roots_table_t3.cfg", 3, -2, 3, 4, 1, 0, 0, "table", ["InvC08", "InvDecide"]),
+        thorough=[mc_cfg("MC_Roots_table_t1.cfg", 4, -1, 1, 5, 1, 0, 0, "table", ["InvC08", "InvDecide", "InvFailed"]),
+                  mc_cfg("MC_Roots_table_t2.cfg", 6, 0, 0, 4, 1, 0, 0, "table", ["InvC08", "InvDecide", "InvFailed"]),
+                  mc_cfg("MC_Roots_table_t3.cfg", 3, -2, 3, 4, 1, 0, 0, "table", ["InvC08", "InvDecide", "InvFailed"]),
                   mc_cfg("MC_Roots_hist_t1.cfg", 12, -1, 2, 0, 3, 0, 80, "history", ["InvC08", "InvDecide"]),
                   mc_cfg("MC_Roots_hist_t2.cfg", 9, 0, 0, 0, 8, 0, 80, "history", ["InvC08", "InvDecide"])]),
     "C09": dict(
@@ -69,6 +69,9 @@ GENS = [
     G("tab3", 3, -2, 3, 1, "table", 4, dict(quick=60, thorough=1500), ["C08"], gridhalf=5),
     G("free1", 8, -1, 1, 1, "free", 14, dict(quick=100, thorough=2000), ["C08"], sw=True),
     G("free2", 5, 0, 2, 1, "free", 14, dict(quick=60, thorough=1500), ["C08"]),
+    # storage faults at the Remove / Load / Store of the roots record, and calls that see another certificate lifetime
+    G("flt1", 8, -1, 1, 1, "faulty", 14, dict(quick=80, thorough=1500), ["C08"], sw=True),
+    G("flt2", 6, 0, 0, 1, "faulty", 12, dict(quick=40, thorough=1000), ["C08"]),
     G("cad1", 8, -1, 1, 4, "cadence", 60, dict(quick=60, thorough=800), ["C09", "C08"]),
     G("cad2", 8, 0, 0, 2, "cadence", 60, dict(quick=40, thorough=600), ["C09"]),
     G("cad3", 12, -1, 2, 3, "cadence", 80, dict(quick=30, thorough=600), ["C09"]),
